@@ -9,11 +9,14 @@ from guards import describe, guards_at, eval_int, inlined_calls, find_call
 TEXT_VIEWS = [
     (r"LeanString::as_str\((p\d)\)", r"TEXT(\1)"),
     (r"<LeanString as core::ops::deref::Deref>::deref\((p\d)\)", r"TEXT(\1)"),
-    (r"repr::Repr::as_str\(&\*(p\d)\.0\)", r"TEXT(\1)"),
+    (r"repr::Repr::as_str\((p\d)\.0\)", r"TEXT(\1)"),
     (r"alloc::string::String::as_str\((p\d)\)", r"TEXT(\1)"),
     (r"<alloc::string::String as core::ops::deref::Deref>::deref\((p\d)\)", r"TEXT(\1)"),
     (r"<alloc::borrow::Cow<'_, T> as core::convert::AsRef<T>>::as_ref\((p\d)\)", r"TEXT(\1)"),
     (r"<alloc::borrow::Cow<'_, B> as core::ops::deref::Deref>::deref\((p\d)\)", r"TEXT(\1)"),
+    # the text of a Box<str> / Rc<str> / Arc<str> argument (`&**other`): the built-in box deref or the smart pointer's Deref
+    (r"\((p\d)\.0\.0 as \*const str\)", r"TEXT(\1)"),
+    (r"<alloc::(?:boxed::Box|rc::Rc|sync::Arc)<T(?:, A)?> as core::ops::deref::Deref>::deref\((p\d)\)", r"TEXT(\1)"),
 ]
 
 
@@ -32,7 +35,8 @@ STR_EQ = ("core::str::traits::<impl core::cmp::PartialEq for str>::eq",)
 STR_EQ_ALL = STR_EQ + ("core::cmp::impls::<impl core::cmp::PartialEq<&B> for &A>::eq",)
 GLUE_CALLS = ("LeanString::as_str", "alloc::string::String::as_str", "<alloc::string::String as core::ops::deref::Deref>::deref",
               "<alloc::borrow::Cow<'_, T> as core::convert::AsRef<T>>::as_ref", "<alloc::borrow::Cow<'_, B> as core::ops::deref::Deref>::deref",
-              "<LeanString as core::ops::deref::Deref>::deref", "repr::Repr::as_str")
+              "<LeanString as core::ops::deref::Deref>::deref", "repr::Repr::as_str",
+              "<alloc::boxed::Box<T, A> as core::ops::deref::Deref>::deref", "<alloc::rc::Rc<T, A> as core::ops::deref::Deref>::deref", "<alloc::sync::Arc<T, A> as core::ops::deref::Deref>::deref")
 STR_CMP = ("core::str::traits::<impl core::cmp::Ord for str>::cmp",)
 STR_HASH = ("core::hash::impls::<impl core::hash::Hash for str>::hash",)
 
@@ -42,7 +46,7 @@ def _raw_text(p, ty):
     if ty == "str":
         return [p]
     if ty == "&str":
-        return ["*" + p]
+        return [p]
     return ["TEXT(%s)" % p]
 
 
@@ -117,8 +121,8 @@ def rule_C17(ctx, rule="C17-deleg"):
     for n in need:
         ctx.ob(rule, "%s for %s" % (n[0], n[1]), "present<%s>" % ",".join(n[2]), n in have, how="impl present", detail="impl %s<%s> for %s is missing (comparison/lookup in that direction no longer compiles or falls back to something else)" % (n[0], ",".join(n[2]), n[1]))
     # the views themselves
-    for fn, want in (("LeanString::as_str", "repr::Repr::as_str(&*p1.0)"), ("LeanString::as_bytes", "repr::Repr::as_bytes(&*p1.0)"), ("LeanString::len", "repr::Repr::len(&*p1.0)"),
-                     ("LeanString::is_empty", "repr::Repr::is_empty(&*p1.0)"), ("repr::Repr::as_str", "core::str::converts::from_utf8_unchecked(repr::Repr::as_bytes(p1))")):
+    for fn, want in (("LeanString::as_str", "repr::Repr::as_str(p1.0)"), ("LeanString::as_bytes", "repr::Repr::as_bytes(p1.0)"), ("LeanString::len", "repr::Repr::len(p1.0)"),
+                     ("LeanString::is_empty", "repr::Repr::is_empty(p1.0)"), ("repr::Repr::as_str", "core::str::converts::from_utf8_unchecked(repr::Repr::as_bytes(p1))")):
         b = F.bodies.get(fn)
         ctx.need(rule, fn, "anchor", b is not None, "%s not found" % fn)
         if b:
@@ -261,33 +265,37 @@ def rule_C16(ctx, rule="C16-decode"):
             ds = ret_defs(b)
             ctx.ob(rule, b.path, "delegates-to-String", len(ds) == 1 and "String::from_utf8_lossy(p1)" in ds[0], how="delegates to String::from_utf8_lossy(buf)", detail="returns %s" % ds)
         else:
-            ch = [(bb, t) for bb, t in b.calls() if callee_name(t) == "core::str::lossy::<impl [u8]>::utf8_chunks"]
-            ok = len(ch) == 1 and describe(b, b.origin_operand(ch[0][1]["args"][0])) == "p1"
+            from guards import inlined_sites
+            CH = r"core::str::lossy::<impl \[u8\]>::utf8_chunks\(p1\)"
+            # the loop may be a `for`, a `while let` or a closure given to for_each: sites are seen
+            # from the constructor through closures / private helpers, the chunk is `item(chunks)`
+            ch = inlined_sites(b, lambda nm: nm == "core::str::lossy::<impl [u8]>::utf8_chunks")
+            ok = len(ch) == 1 and ch[0].desc(0) == "p1"
             ctx.ob(rule, b.path, "chunks(buf)", ok, how="iterates buf.utf8_chunks()", detail="from_utf8_lossy does not iterate utf8_chunks of the input (%s)" % names)
-            ps = [(bb, t) for bb, t in b.calls() if callee_name(t) in ("LeanString::push_str", "LeanString::try_push_str")]
-            okp = len(ps) == 1 and re.match(r"^core::str::lossy::Utf8Chunk::<'\w+>::valid\(&some\(<core::str::lossy::Utf8Chunks<'\w+> as core::iter::traits::iterator::Iterator>::next\(", describe(b, b.origin_operand(ps[0][1]["args"][1]))) is not None
-            ctx.ob(rule, b.path, "push_str(chunk.valid())", okp, how="appends chunk.valid() of every chunk", detail="push_str operand is %s" % ([describe(b, b.origin_operand(t["args"][1])) for _, t in ps]))
-            pc = [(bb, t) for bb, t in b.calls() if callee_name(t) in ("LeanString::push", "LeanString::try_push")]
+            ps = inlined_sites(b, lambda nm: nm in ("LeanString::push_str", "LeanString::try_push_str"))
+            okp = len(ps) == 1 and re.match(r"^core::str::lossy::Utf8Chunk::<'\w+>::valid\(item\(%s\)\)$" % CH, ps[0].desc(1)) is not None
+            ctx.ob(rule, b.path, "push_str(chunk.valid())", okp, how="appends chunk.valid() of every chunk", detail="push_str operand is %s" % [st.desc(1) for st in ps])
+            pc = inlined_sites(b, lambda nm: nm in ("LeanString::push", "LeanString::try_push"))
             okc = False
             why = "no push of the replacement character"
             if len(pc) == 1:
-                bb, t = pc[0]
-                c = strip_refs(b.origin_operand(t["args"][1]))
-                gs = guards_at(b, bb)
-                INV = r"core::str::lossy::Utf8Chunk::<'\w+>::invalid\("
-                cond = [g for g in gs if g[0] == "pred" and g[1] == "core::slice::<impl [T]>::is_empty" and g[3] is False and g[2] is not None and re.match("^" + INV, describe(b, g[2]))]
+                st = pc[0]
+                c = strip_refs(st.body.origin_operand(st.t["args"][1]))
+                gs = st.guards()
+                INV = r"core::str::lossy::Utf8Chunk::<'\w+>::invalid\(item\(%s\)\)" % CH
+                cond = [g for g in gs if g[0] == "pred" and g[1] == "core::slice::<impl [T]>::is_empty" and g[3] is False and g[2] is not None and re.match("^" + INV, g[2])]
                 # or a length / slice-pattern test: len(chunk.invalid()) >= 1
-                cond += [g for g in gs if g[0] == "cmp" and g[2] == 1 and g[3] is None and re.search(INV, describe(b, g[1]))]
-                cond += [g for g in gs if g[0] == "ne" and g[2] == 0 and re.search(INV, describe(b, g[1]))]
+                cond += [g for g in gs if g[0] == "cmp" and g[2] == 1 and g[3] is None and re.search(INV, g[1])]
+                cond += [g for g in gs if g[0] == "ne" and g[2] == 0 and re.search(INV, g[1])]
                 okc = c[0] == "const" and c[2] == REPL and bool(cond)
-                why = "push(%s) under %s" % (describe(b, c), [(g[0], g[1] if isinstance(g[1], str) else "", g[2:4]) for g in gs])
+                why = "push(%s) under %s" % (st.desc(1), gs)
                 # and under nothing else value-dependent
                 other = [g for g in gs if g[0] in ("cmp", "cmp2", "ne") and g not in cond]
                 okc = okc and not other
             ctx.ob(rule, b.path, "replacement-iff-invalid-nonempty", okc, how="push(U+FFFD) exactly on the edge !chunk.invalid().is_empty()", detail="replacement character logic: %s" % why)
             # the push of the replacement comes after the valid part of the same chunk
             if ps and pc:
-                ctx.ob(rule, b.path, "order", b.dominates(ps[0][0], pc[0][0]), how="valid part appended before the replacement", detail="replacement pushed before the chunk's valid part")
+                ctx.ob(rule, b.path, "order", ps[0].body is pc[0].body and ps[0].body.dominates(ps[0].bb, pc[0].bb), how="valid part appended before the replacement", detail="replacement pushed before the chunk's valid part")
     _no_arith_on_input(ctx, rule, "LeanString::from_utf8_lossy")
     # from_utf16
     b = F.bodies.get("LeanString::from_utf16")
@@ -301,24 +309,37 @@ def rule_C16(ctx, rule="C16-decode"):
         if dec and dec[0].body is not b:
             # the loop lives in a private helper: judge the rest there
             b = dec[0].body
-        pc = [(bb, t) for bb, t in b.calls() if callee_name(t) in ("LeanString::push", "LeanString::try_push")]
-        okp = False
-        if len(pc) == 1:
-            bb, t = pc[0]
-            d = describe(b, b.origin_operand(t["args"][1]))
-            okp = re.match(r"^ok\((core::result::Result::<T, E>::map_err\()?some\(<core::char::decode::DecodeUtf16<.*> as core::iter::traits::iterator::Iterator>::next\(", d) is not None
-        ctx.ob(rule, b.path, "push(Ok(c))", okp, how="pushes every successfully decoded char unchanged", detail="push operand is %s" % [describe(b, b.origin_operand(t["args"][1])) for _, t in pc])
+        root = F.bodies["LeanString::from_utf16"]
+        DEC = r"core::char::methods::<impl char>::decode_utf16\(core::iter::traits::iterator::Iterator::copied\(core::slice::<impl \[T\]>::iter\(p1\)\)\)"
+        pc = inlined_sites(root, lambda nm: nm in ("LeanString::push", "LeanString::try_push"))
+        okp = len(pc) == 1 and re.match(r"^ok\((core::result::Result::<T, E>::map_err\()?item\(%s\)" % DEC, pc[0].desc(1)) is not None
+        ctx.ob(rule, b.path, "push(Ok(c))", okp, how="pushes every successfully decoded char unchanged", detail="push operand is %s" % [st.desc(1) for st in pc])
         # Err(FromUtf16Error) on the first decoding error: an Err built under the Err arm of the decoded
-        # item, or `item.map_err(|_| FromUtf16Error)?`
-        errb = [bb for bb, blk in enumerate(b.blocks) for s in blk["stmts"] if s["k"] == "assign" and s["lhs"]["l"] == 0 and s["rv"]["k"] == "aggregate" and s["rv"].get("variant_name") == "Err"]
-        oke = False
-        for bb in errb:
-            gs = guards_at(b, bb)
-            if any(g[0] == "cls" and g[2] == "Err" for g in gs):
-                oke = True
-        rd = ret_defs(b)
-        via_q = [d for d in rd if re.match(r"^err\(core::result::Result::<T, E>::map_err\(some\(<core::char::decode::DecodeUtf16<.*> as core::iter::traits::iterator::Iterator>::next\(", d)]
-        ctx.ob(rule, b.path, "first-error-wins", (oke and len(errb) == 1) or (len(via_q) == 1 and not errb), how="returns Err(FromUtf16Error) on the decoder's Err item", detail="Err return is not tied to the decoder's Err item (%d Err sites, %s)" % (len(errb), [d for d in rd if d.startswith("err(")]))
+        # item, `item.map_err(|_| FromUtf16Error)?`, or try_for_each over a closure that fails exactly
+        # when the item is Err
+        frames = [(root, None)]
+        for st in (pc[:1] + dec[:1]):
+            for (fb, _), sub in zip(st.chain, st.subst):
+                if all(fb is not x for x, _ in frames):
+                    frames.append((fb, sub))
+        nerr, oke, via_q, via_tfe = 0, False, [], False
+        alld = []
+        for fb, sub in frames:
+            # Err values built here (re-wrapping a callee's error, `Err(e) => Err(e)`, is a propagation)
+            errb = [bb for bb, blk in enumerate(fb.blocks) for s_ in blk["stmts"] if s_["k"] == "assign" and s_["lhs"]["l"] == 0 and s_["rv"]["k"] == "aggregate" and s_["rv"].get("variant_name") == "Err"
+                    and not describe(fb, fb.origin_rvalue(s_["rv"]), 0, sub).startswith("err(")]
+            nerr += len(errb)
+            for bb in errb:
+                if any(g[0] == "cls" and g[2] == "Err" for g in guards_at(fb, bb)):
+                    oke = True
+            rd = [describe(fb, ("call", bb) if si == "term" else fb.origin_rvalue(x), 0, sub) for (bb, si, x) in fb.defs.get(0, [])]
+            alld += rd
+            via_q += [d for d in rd if re.match(r"^err\(core::result::Result::<T, E>::map_err\(item\(%s\)" % DEC, d)]
+            if any(re.match(r"^core::result::Result::<T, E>::map_err\(core::result::Result::<T, E>::map\(item\(%s\), .*\), .*\)$" % DEC, d) for d in rd) and len(rd) == 1:
+                via_tfe = True
+        tfe_root = [d for d in alld if re.match(r"^err\(core::iter::traits::iterator::Iterator::try_for_each\(%s, " % DEC, d)]
+        ok_err = (oke and nerr == 1) or (len(via_q) == 1 and nerr == 0) or (via_tfe and len(tfe_root) == 1 and nerr == 0)
+        ctx.ob(rule, b.path, "first-error-wins", ok_err, how="returns Err(FromUtf16Error) on the decoder's Err item", detail="Err return is not tied to the decoder's Err item (%d Err sites, %s)" % (nerr, [d for d in alld if d.startswith("err(")]))
         ctx.ob(rule, b.path, "no-lossy", not any("lossy" in n or "unwrap_or" in n for n in names), how="no lossy substitution in the strict constructor", detail="from_utf16 calls %s" % names)
     _no_arith_on_input(ctx, rule, "LeanString::from_utf16")
     # from_utf16_lossy
